@@ -171,6 +171,8 @@ partial def loop (h : IO.FS.Stream) : IO Unit := do
     -- metadata map body (after the opening brace), must end with the closing brace
     match readMap validUtf8 (parseHex hex) with
     | .ok (m, rest) =>
+      -- `read` then expects the closing brace of the file's top-level map (`expect_bytes(&[0x7d])`)
+      if rest.head? != some 0x7d then IO.println "err expected bytes" else
       (match writeMap m with
        | .ok back => IO.println s!"ok {kvsDump m} rest={rest.length} back={hexOf back}"
        | .err e => IO.println s!"err {e}"
